@@ -111,6 +111,17 @@ func vfShuffle(l []*memberState) {
 	if len(l) >= 3 && vfBool("swapC") {
 		l[0], l[1] = l[1], l[0]
 	}
+	if len(l) >= 4 {
+		// the fourth element goes to a symbolic position (with S3 on the rest: every order)
+		switch vfChoice("pos4", 4) {
+		case 0:
+			l[0], l[3] = l[3], l[0]
+		case 1:
+			l[1], l[3] = l[3], l[1]
+		case 2:
+			l[2], l[3] = l[3], l[2]
+		}
+	}
 }
 
 func vfInList(l []*memberState, m *memberState) int {
